@@ -1435,7 +1435,10 @@ bool WFXMLScanner::scanStartTagNS(bool& gotData)
         // which have been bound to namespace names that are identical. 
         XMLAttr* loopAttr;
         XMLAttr* curAtt;
-        for (unsigned int attrIndex=0; attrIndex < attCount-1; attrIndex++) {
+        // the pairwise comparison needs no pass for the last attribute, the
+        // hash table lookup does
+        const unsigned int loopEnd = toUseHashTable ? (unsigned int)attCount : (unsigned int)(attCount-1);
+        for (unsigned int attrIndex=0; attrIndex < loopEnd; attrIndex++) {
             loopAttr = fAttrList->elementAt(attrIndex);
 
             if (!toUseHashTable)
